@@ -45,7 +45,7 @@ func runC18(c *Ctx) {
 	}
 	okp, _ := nkeys.CreateOperator()
 	signers := append([]nkeys.KeyPair{okp}, accts...)
-	toksA := []string{"a", "b", "foo", "*", ">", "x1", "_", "A"}
+	toksA := []string{"a", "b", "foo", "*", ">", "x1", "_", "A", "a*b", "x>y", "*foo", "bar>", "**"}
 	genSubj := func() string {
 		n := 1 + c.Rng.Intn(5)
 		t := make([]string, n)
@@ -57,7 +57,7 @@ func runC18(c *Ctx) {
 		}
 		return strings.Join(t, ".")
 	}
-	shapes := []string{"a", "a.b", "a.b.c", "*", ">", "*.a", "a.*", "a.>", "a.*.b", "a.b.*.>", "*.*", "_", "_.a", "a.b.*", "foo.*.bar.>"}
+	shapes := []string{"foo.a*b.>", "foo.a*b", "*foo.bar", "x>y.bar.*", "a", "a.b", "a.b.c", "*", ">", "*.a", "a.*", "a.>", "a.*.b", "a.b.*.>", "*.*", "_", "_.a", "a.b.*", "foo.*.bar.>"}
 	distinct := map[string]bool{}
 	emit := func(iss, sub, imp string, got string, refused bool, inp map[string]interface{}) {
 		pre := iss + "." + sub + "." + oracleClean(imp)
